@@ -259,13 +259,27 @@ class FileResponseMixin:
         )
 
 
+# Only CRLF, CR and LF end a line of an event stream. `str.splitlines` also
+# splits at VT, FF, FS, GS, RS, NEL, LS and PS, which are ordinary data there.
+_SSE_LINE_BREAK = re.compile(r"\r\n|\r|\n")
+
+
+def _split_sse_lines(data: str) -> List[str]:
+    lines = _SSE_LINE_BREAK.split(data)
+    if lines[-1] == "":  # like str.splitlines: no extra line after a final break
+        lines.pop()
+    return lines
+
+
 def build_bytes_from_sse(event: ServerSentEvent, charset: str) -> bytes:
     """
     helper function for SendEventResponse
     """
     data: Iterable[bytes]
     if "data" in event:
-        data = (f"data: {_}".encode(charset) for _ in event.pop("data").splitlines())
+        data = (
+            f"data: {_}".encode(charset) for _ in _split_sse_lines(event.pop("data"))
+        )
     else:
         data = ()
     return b"\n".join(
